@@ -27,6 +27,7 @@ WordCh == Digits \cup Lower \cup Upper \cup {"_"}          \* \w over ASCII
 ClassOK(k, c, first) ==
   CASE k = "any"   -> c # "/"
     [] k = "dig"   -> c \in Digits
+    [] k = "digb"  -> c \in Digits                                   \* the same set written with a counted repetition: \d{1,}
     [] k = "num"   -> IF first THEN c \in (Digits \ {"0"}) ELSE c \in Digits
     [] k = "word"  -> c \in WordCh
     [] k = "all"   -> TRUE
